@@ -70,7 +70,15 @@ Definition pweight (p : Qc) : Qc := (p - Q2Qc (Z.of_nat (qfloor p) # 1))%Qc.
 Definition interp_linear_specM (n : nat) (pos : list Qc) : list (list Qc) :=
   let ps := map (interp_pos n) pos in
   specM QcR (length pos) n (interp_spec QcR (map pfloor ps) (map pweight ps)).
-Definition qround (p : Qc) : nat := qfloor (p + Q2Qc (1 # 2))%Qc.
+(* numpy.round: round half to EVEN (0.5 -> 0, 1.5 -> 2, 2.5 -> 2), as documented for
+   Interp(kind='nearest') = Restriction at np.round(iava) *)
+Definition qround (p : Qc) : nat :=
+  let f := Qfloor (this p) in
+  let r := (p - Q2Qc (f # 1))%Qc in
+  let half := Q2Qc (1 # 2) in
+  if Qcleb r half then
+    (if Qcleb half r then (if Z.even f then Z.to_nat f else Z.to_nat (f + 1)) else Z.to_nat f)
+  else Z.to_nat (f + 1).
 Definition bilinear_specM (n1 n2 : nat) (p0 p1 : list Qc) : list (list Qc) :=
   specM QcR (length p0) (n1 * n2) (bilin_spec QcR n2 (map pfloor p0) (map pfloor p1) (map pweight p0) (map pweight p1)).
 
